@@ -2,7 +2,7 @@
    Property theorems only; each is closed by [exact] of a lemma proved in Proofs/. *)
 From Coq Require Import ZArith NArith List Bool.
 Import ListNotations.
-From V Require Import Model.Val Model.Paths Model.PyPrims Model.Quote Proofs.PathsP Proofs.QuoteP Proofs.Ties Gen.Fn_helpers.
+From V Require Import Model.Val Model.Paths Model.PyPrims Model.Quote Model.HttpUrl Proofs.PathsP Proofs.QuoteP Proofs.Ties Proofs.HttpUrlP Gen.Fn_helpers.
 
 (* 1. normalize_pure_path: for every path string and every base, the result consists of
       genuine segments only: no "..", no ".", no empty segment, no "/" inside a segment;
@@ -41,6 +41,13 @@ Theorem quote_roundtrip : forall safe bs,
   Forall (fun b => (b < 256)%N) bs -> memN PCT safe = false -> unquote (quote safe bs) = bs.
 Proof. exact unquote_quote. Qed.
 Print Assumptions quote_roundtrip.
+
+(* 5. HTTP: whatever the file name is, the URL obtained by substituting %s %q %d %n %e %% in ANY template has exactly
+      as many '?', '#', spaces and backslashes as the template: the name cannot add query or fragment structure *)
+Theorem http_url_structure : forall k tpl u c, comps_ok k ->
+  subst k tpl = Some u -> (c = 63 \/ c = 35 \/ c = 32 \/ c = 92)%N -> count c u = count c tpl.
+Proof. exact url_structure_preserved. Qed.
+Print Assumptions http_url_structure.
 
 (* non-vacuity: a path that tries to climb *)
 Example climb : normalize [46;46;47;46;46;47;120]%N [115;117;98]%N = [[120]%N].
